@@ -95,6 +95,7 @@ Proof.
       by (intros o; destruct (jlookup key o) as [[]|]; try reflexivity; apply Hhex).
     destruct ptr.
     + apply bind_no_panic; [|reflexivity]. destruct code, j; try reflexivity; try apply Hhex; try apply Hobj.
+      destruct (check_code _ _); [reflexivity|apply Hobj].
     + destruct j; try reflexivity; try apply Hhex.
       destruct code; [destruct (check_code _ _); [reflexivity|apply Hobj]|reflexivity].
   - cbn [jdecode].
